@@ -7,6 +7,7 @@ CONSTANTS
   SvcOf <- MCSvcOf2
   Manual <- MCManualSmall
   MaxChanges = 2
+  MaxFaults = 1
   PoisonTables = FALSE
   Clients = {1}
   Prefixes <- MCPrefixes
